@@ -75,6 +75,18 @@ CHECKS = {
              "lists) and id freshness at copy time; then every single edit on every node of either side and all edit "
              "sequences of length 2 (quick) / 3 (thorough) at five copy points: the other side's snapshot must not change.",
         design="DESIGN.md C11"),
+    "C12": dict(
+        engine="input",
+        category="model_checking",
+        technique="exhaustive enumeration of small trees x (linker, target) pairs x path forms, each driven through a fixed "
+                  "finalize/clean/save/load history against an independent resolver and snapshot algebra",
+        text="Every ordered forest with <=5 (quick) / <=6 (thorough) Sections, with document-unique names and with Section "
+             "names that repeat across parallel branches, x every admissible (linker, target) pair x {absolute, relative, "
+             "./relative} path x own-children variants x {link, include with and without #path}; all non-nested placements "
+             "of two links; each followed by finalize, clean, finalize, finalize, clean, clean, save+load (XML, JSON), "
+             "finalize on the real classes: copies only, nothing outside the linker changes, clean restores, the stored "
+             "reference still designates the target (compared by resolution through ref/paths.py).",
+        design="DESIGN.md C12"),
     "C13": dict(
         engine="input",
         category="model_checking",
